@@ -82,8 +82,11 @@ def lookups(cx: Ctx, w: World, r: Obj, expect, op, inp):
 
     def prop(name):
         return run_guarded(lambda: it.get_attr(r, name))
+    name_of = lambda l: (w.dim(l).f["name"] if l in cx.alpha else l * 2)
+    names_unique = len({name_of(l) for l in expect}) == len(expect)
     for l in cx.alpha + "z":
-        for key in (l, l * 2):
+        # by letter always; by name only where names identify a dimension (dimensions may share a name: only letters are unique)
+        for key in ((l, name_of(l)) if names_unique and not (w.same_names and l not in expect) else (l,)):
             k, v = call("__contains__", key)
             if k != "ok" or bool(v) != (l in expect):
                 problems.append(f"'{key}' in set -> {v if k == 'ok' else k} but letters are {expect}")
@@ -102,7 +105,7 @@ def lookups(cx: Ctx, w: World, r: Obj, expect, op, inp):
     # identifiers spelled with the set's letters, and the empty string, are not dimensions of it
     odd = ["", "".join(expect)] + ["".join(expect[i:i + 2]) for i in range(len(expect) - 1)]
     for key in odd:
-        if key in expect or key in [l * 2 for l in expect]:
+        if key in expect or key in [name_of(l) for l in expect]:
             continue
         k, v = call("__contains__", key)
         if k != "ok" or bool(v):
@@ -114,7 +117,7 @@ def lookups(cx: Ctx, w: World, r: Obj, expect, op, inp):
         k, v = call("__getitem__", i)
         if k != "ok" or not isinstance(v, Obj) or v.f.get("letter") != l:
             problems.append(f"set[{i}] is not dimension {l}")
-    checks = {"letters": tuple(expect), "names": tuple(l * 2 for l in expect), "string": "".join(expect), "ndim": len(expect)}
+    checks = {"letters": tuple(expect), "names": tuple(name_of(l) for l in expect), "string": "".join(expect), "ndim": len(expect)}
     for nm, want in checks.items():
         k, v = prop(nm)
         if k != "ok" or v != want:
@@ -238,10 +241,17 @@ def run_pair_ops(cx: Ctx, A, B):
             cx.ob("C14.operator-result", ok, op, inp, f"expected {exp}, got {kind} {w.letters(r) if kind == 'ok' else r}")
 
 
+def _same_names():
+    from ..world import MODE
+    return MODE["names"] == "same"
+
+
 def run_unary(cx: Ctx, A):
     rev = tuple(reversed(A))
-    cases = [("copy", (), A), ("get_subset", (), A), ("get_subset", (None,), A), ("get_subset", (rev,), rev),
-             ("get_subset", (tuple(l * 2 for l in A),), A), ("__getitem__", (rev,), rev)]
+    from ..world import MODE
+    cases = [("copy", (), A), ("get_subset", (), A), ("get_subset", (None,), A), ("get_subset", (rev,), rev), ("__getitem__", (rev,), rev)]
+    if MODE["names"] != "same":
+        cases.append(("get_subset", (tuple(l * 2 for l in A),), A))       # by name - where names identify the dimensions
     for k in range(len(A)):
         sub = tuple(x for i, x in enumerate(rev) if i != k)
         cases.append(("get_subset", (sub,), sub))
@@ -325,7 +335,7 @@ def run_mutators(cx: Ctx, A):
             for i in range(len(A) + 1):
                 muts.append((f"insert@{i}", (lambda d, i=i: (i, d)), (lambda i=i: A[:i] + (new,) + A[i:])))
             for i, old in enumerate(A):
-                for key in (old, old * 2):
+                for key in ((old, old * 2) if not _same_names() else (old,)):
                     muts.append((f"replace:{key}", (lambda d, key=key: (key, d)), (lambda i=i: A[:i] + (new,) + A[i + 1:])))
             for label, mkargs, oracle in muts:
                 name = label.split("@")[0].split(":")[0]
@@ -395,7 +405,7 @@ def run_mutators(cx: Ctx, A):
                 ch = w.changed(snaps)
                 cx.ob("C14.rejected-call-changes-nothing", not ch, name, inp, "; ".join(ch))
     for i, old in enumerate(A):
-        for key in (old, old * 2):
+        for key in ((old, old * 2) if not _same_names() else (old,)):
             for inplace in (False, True):
                 for name in ("drop", "remove"):
                     w = World(cx.prog)
@@ -453,6 +463,10 @@ def work(prog, rep, chunk):
             run_mutators(cx, A)
             if len(A) <= 2:
                 run_empty_dimension(cx, A)
+            if len(A) >= 2:
+                # the same again with dimensions that all carry ONE name (origin / destination regions): only letters identify them
+                from ..world import in_length_mode
+                in_length_mode("uniform+samenames", lambda: (run_unary(cx, A), run_mutators(cx, A)))
         if () in lists:
             constructor_uniqueness(cx)
     except TaintAbort as e:
